@@ -126,6 +126,3 @@ func indent(s, pre string) string {
 	return pre + strings.ReplaceAll(strings.TrimRight(s, "\n"), "\n", "\n"+pre)
 }
 
-func cmdCheck(args []string) int   { fmt.Println("not implemented"); return 2 }
-func cmdBaseline(args []string) int { fmt.Println("not implemented"); return 2 }
-func cmdReplay(args []string) int  { fmt.Println("not implemented"); return 2 }
